@@ -154,6 +154,15 @@ fn canon_allpairs(r: &std::collections::HashMap<N, std::collections::HashMap<N, 
 }
 
 impl E1Oracle for C03Oracle {
+    fn warmup(&mut self, g: &G, _alphabet: &Alphabet) {
+        let w = self.weighted;
+        let _ = dijkstra::all_pairs(g, w, None, None, false, true);
+        let _ = betweenness::betweenness_centrality(g, w, false);
+        let _ = closeness::closeness_centrality(g, w, false);
+        for n in g.get_all_node_names().into_iter().cloned().collect::<Vec<N>>() {
+            let _ = dijkstra::single_source(g, w, n, None, None, false, false);
+        }
+    }
     fn transition(&mut self, t: &Trans, _rec: &Recorder, c: &mut Counters) {
         if let Op::AddEdge(e) = t.op {
             if *t.real_res != ResKind::Ok {
